@@ -61,6 +61,9 @@ impl PartialOrd<ThresholdHook> for usize {
 /// Threshold used by `components::operator` in place of its constant when the feature is on.
 pub static PARALLEL_THRESHOLD: ThresholdHook = ThresholdHook::new(10);
 
+/// Threshold used by `components::operator` for the OpenCL path (only consulted with the `gpu` feature).
+pub static OPENCL_THRESHOLD: ThresholdHook = ThresholdHook::new(15);
+
 static DRAWS: Mutex<VecDeque<f64>> = Mutex::new(VecDeque::new());
 
 /// Queue uniform draws; each call of `State::measure` consumes one (falls back to the RNG when empty).
